@@ -134,3 +134,37 @@ pub fn ctx_mul(m: u8, p: u32, bits: u32) {
         _ => mul_::<mode::HalfAway>(5, p, bits),
     }
 }
+
+/// Context::add on LITERAL base-2 operands around the "small operand far below the rounding position" branch
+/// (no symbolic input; the symbolic versions are probes): the result is within half an ulp for the nearest modes
+pub fn ctx_add_literals() {
+    let cases: [(i64, i64); 8] = [(-240, -1), (240, 1), (-224, -1), (-240, 1), (240, -1), (-128, -1), (31 << 6, 1), (-(31 << 6), -1)];
+    let mut i = 0;
+    while i < cases.len() {
+        let (a, b) = cases[i];
+        let num = a as i128 + b as i128;
+        let ra = Repr::<2>::new(small_i(a), 0);
+        let rb = Repr::<2>::new(small_i(b), 0);
+        match Context::<mode::HalfAway>::new(5).add(&ra, &rb) {
+            Approximation::Exact(v) => {
+                let (s, e) = parts(&v);
+                contract(5, s, e, None, num, 0, 5);
+            }
+            Approximation::Inexact(v, fl) => {
+                let (s, e) = parts(&v);
+                contract(5, s, e, Some(fl), num, 0, 5);
+            }
+        }
+        match Context::<mode::HalfEven>::new(5).add(&ra, &rb) {
+            Approximation::Exact(v) => {
+                let (s, e) = parts(&v);
+                contract(4, s, e, None, num, 0, 5);
+            }
+            Approximation::Inexact(v, fl) => {
+                let (s, e) = parts(&v);
+                contract(4, s, e, Some(fl), num, 0, 5);
+            }
+        }
+        i += 1;
+    }
+}
